@@ -61,6 +61,7 @@ pub fn execute(case: &Case) -> (Outcome, Vec<u8>) {
         AppKind::Shipped => drive::run_with(case.entry, &mut s, App::new(), case.request_size),
         AppKind::Ok200 => drive::run_with(case.entry, &mut s, Scripted::Ok200, case.request_size),
         AppKind::Err => drive::run_with(case.entry, &mut s, Scripted::Err, case.request_size),
+        AppKind::ErrText(i) => drive::run_with(case.entry, &mut s, Scripted::ErrText(i), case.request_size),
         AppKind::Unregistered => drive::run_with(case.entry, &mut s, Scripted::Unregistered, case.request_size),
     };
     (out, case.bytes.clone())
@@ -104,9 +105,14 @@ pub fn judge(case: &Case, out: &Outcome) -> (String, Vec<(String, String)>) {
             status = 299;
         }
     }
-    let must_be_error = (case.read != ReadKind::Full) || case.app == AppKind::Err || (case.app == AppKind::Shipped && definitely_unparseable(&case.bytes[..case.bytes.len().min(case.request_size.max(0) as usize)]));
+    let handler_err = case.app == AppKind::Err || matches!(case.app, AppKind::ErrText(_));
+    // a valid request that fits the buffer (the padded GET of the fill family) is served
+    if case.family == "fill" && case.app == AppKind::Shipped && case.read == ReadKind::Full && case.bytes.len() as i64 <= case.request_size && status != 200 {
+        fails.push((format!("C04:valid-request-that-fits-the-buffer-refused:{}", case.entry.name()), format!("status {} for a valid {}-byte request (buffer {})", status, case.bytes.len(), case.request_size)));
+    }
+    let must_be_error = (case.read != ReadKind::Full) || handler_err || (case.app == AppKind::Shipped && definitely_unparseable(&case.bytes[..case.bytes.len().min(case.request_size.max(0) as usize)]));
     if must_be_error && !(400..600).contains(&status) {
-        let why = if case.read != ReadKind::Full { "transport-read-failed" } else if case.app == AppKind::Err { "handler-error" } else { "unparseable-request" };
+        let why = if case.read != ReadKind::Full { "transport-read-failed" } else if handler_err { "handler-error" } else { "unparseable-request" };
         fails.push((format!("C04:error-not-reported:{}:{}", case.entry.name(), why), format!("status {} for a request that cannot be served ({})", status, why)));
     }
     (format!("{}", status), fails)
